@@ -14,6 +14,7 @@ run time: the observed write trace of real runs must be ⊆ `written`), and that
 import WntrModel.Model.Frame
 import WntrModel.Gen.FrameC11
 import WntrModel.Lemmas.FrameLemmas
+import WntrModel.Lemmas.FrameBacktrack
 
 namespace Wntr.Frame
 open Gen
@@ -110,21 +111,59 @@ theorem checkedIgnorable_eq : checkedIgnorable =
     [⟨"Control", "_which"⟩, ⟨"HeadPump", "_coeffs_curve_points"⟩, ⟨"HeadPump", "_curve_coeffs"⟩, ⟨"Rule", "_which"⟩] := by
   decide +kernel
 
+/-- kind of a condition class in the generated table -/
+def btKindOf (cls : String) : Option BtKind := (backtrackKinds.find? fun p => p.1 == cls).map (·.2)
+
+/-- **backtrack_facts (decided on the regenerated tables).** What the translator reads off `controls.py` / `sim/core.py`:
+(1) the backtrack component of a `ControlChecker.check()` result is USED in exactly two places: the presolve loop and the
+`assert b == 0` of the feasibility controls (rules' and postsolve controls' backtrack is only unpacked);
+(2) the only reader of `cond.backtrack` is `is_control_action_required`, directly after `cond.evaluate()` on the same object;
+(3) every condition class a control registered with the PRESOLVE checker can have assigns `_backtrack` on EVERY path of
+`evaluate()` and is not composite — so the value consumed is the one written in the same pass (`leaf_assigning_fresh`);
+(4) the feasibility controls' conditions are composites whose leaf classes NEVER assign `_backtrack` — no run writes those
+objects' slot, the value consumed is the constructor's 0 (`allNever_untouched`);
+(5) the composite classes are exactly And/Or — for them a stale read is possible (`composite_can_be_stale`), but by (1)–(4)
+it is never consumed. Hence no simulation result depends on the `_backtrack` values a previous run left behind. -/
+theorem backtrack_facts :
+    backtrackConsumers.map (·.2) = ["presolve_controls_to_run", "assert b == 0"] ∧
+    backtrackReaders.all (·.2) = true ∧ backtrackReaders.length = 1 ∧
+    presolveConditionClasses.all (fun c => btKindOf c == some .assignsAllPaths && !backtrackComposite.contains c) = true ∧
+    feasibilityLeafClasses.all (fun c => btKindOf c == some .neverAssigns) = true ∧
+    feasibilityConditionClasses.all (fun c => backtrackComposite.contains c) = true ∧
+    (backtrackKinds.filter fun p => p.2 == .composite).map (·.1) = backtrackComposite ∧
+    (backtrackKinds.filter fun p => p.2 == .assignsSomePaths) = [] := by
+  refine ⟨?_, ?_, ?_, ?_, ?_, ?_, ?_, ?_⟩ <;> decide +kernel
+
+/-- the `_backtrack` slots: not reset, written by runs, and — by `backtrack_facts` with the model of `evaluate` /
+`backtrack` in `Lemmas/FrameBacktrack.lean` — never consumed with a value from before the current pass -/
+def backtrackIgnorable : List Slot :=
+  [⟨"Control", "_condition._backtrack"⟩, ⟨"Rule", "_condition._backtrack"⟩]
+
+/-- the model facts `backtrack_facts` is combined with -/
+theorem backtrack_model :
+    (∀ (p : Backtrack.Pass) (i : Nat) (s s' : Backtrack.Store), Backtrack.isRequired p (.leaf i true) s = Backtrack.isRequired p (.leaf i true) s') ∧
+    (∀ (p : Backtrack.Pass) (c : Backtrack.Cond), Backtrack.allNever c = true →
+      ∀ s : Backtrack.Store, (Backtrack.eval p c s).2 = s) ∧
+    (∃ (p : Backtrack.Pass) (c : Backtrack.Cond) (s s' : Backtrack.Store),
+      Backtrack.isRequired p c s ≠ Backtrack.isRequired p c s') :=
+  ⟨Backtrack.leaf_assigning_fresh, fun p c h s => Backtrack.allNever_untouched p c h s, Backtrack.composite_can_be_stale⟩
+
 /-- the remaining not-reset slots a simulation is ASSUMED not to depend on at its start (hypothesis `hdep` below; the
-translator's rules do not establish it, the rerun oracle on the real code is what checks it):
-`_condition._backtrack` is assigned on every path of `evaluate()` by the condition classes that use it, but
-And/OrCondition read both children's value while `evaluate` short-circuits (harmless: composite conditions occur only in
-post-solve controls and rules, where backtracking is ignored); `Reservoir._leak_status` is read by the generic
-`node.leak_status` code but a reservoir has no leak model; `Rule._name` only renames; `_inpfile` is the cached INP writer
-of the EPANET path, never loaded by WNTRSimulator. -/
+rerun oracle on the real code is what checks it): `Rule._name` — its readers in the run-time closures are the INP rule
+label, `__repr__` and `to_dict` (`Gen.ruleNameReaders`): a label, no hydraulics; `WaterNetworkModel._inpfile` — the cached
+INP writer of the EPANET path, never loaded by WNTRSimulator; EpanetSimulator passes `units=options.hydraulic.inpfile_units`,
+which may be `None`, in which case the cached writer's units are reused (`Gen.inpfileUnitsAlwaysPassed = false`), so this
+one cannot be discharged from the source. -/
 def assumedIgnorable : List Slot :=
-  [⟨"Reservoir", "_leak_status"⟩,
-   ⟨"Control", "_condition._backtrack"⟩,
-   ⟨"Rule", "_condition._backtrack"⟩, ⟨"Rule", "_name"⟩,
-   ⟨"WaterNetworkModel", "_inpfile"⟩]
+  [⟨"Rule", "_name"⟩, ⟨"WaterNetworkModel", "_inpfile"⟩]
+
+theorem assumedIgnorable_evidence :
+    ruleNameReaders.map (·.2) = ["inp-label", "logging/str", "dict key", "inp-label"] ∧
+    inpfileUnitsAlwaysPassed = false := by
+  constructor <;> decide +kernel
 
 /-- slots whose value at the start of a run does not matter -/
-def ignorable : List Slot := runInitialises ++ checkedIgnorable ++ assumedIgnorable
+def ignorable : List Slot := runInitialises ++ checkedIgnorable ++ backtrackIgnorable ++ assumedIgnorable
 
 /-- slots a run writes that survive `reset_initial_values` and matter -/
 def notRestored : List Slot := missing written (resetAssigns ++ ignorable)
@@ -133,11 +172,14 @@ def notRestored : List Slot := missing written (resetAssigns ++ ignorable)
 def ResetRestoresInitial : Prop := notRestored = []
 
 def expectedNotRestored : List Slot :=
-  [⟨"HeadPump", "_speed_timeseries.base_value"⟩, ⟨"PowerPump", "_speed_timeseries.base_value"⟩]
+  [⟨"HeadPump", "_speed_timeseries.base_value"⟩, ⟨"PowerPump", "_speed_timeseries.base_value"⟩,
+   ⟨"Reservoir", "_leak_status"⟩]
 
 theorem reset_missing_that_matters : notRestored = expectedNotRestored := by decide +kernel
 
-/-- **the full statement is false of the code**: the pump speed written by a `base_speed` action is not restored -/
+/-- **the full statement is false of the code**: the pump speed written by a `base_speed` action is not restored, nor is
+a reservoir's `_leak_status` (written by `ControlAction(reservoir, 'leak_status', …)`; the generic `node.leak_status` code
+and the change tracker read it: known finding with a proposed one-line repair of `reset_initial_values`) -/
 theorem reset_restores_initial_counterexample : ¬ ResetRestoresInitial := by
   unfold ResetRestoresInitial; rw [reset_missing_that_matters]; decide
 
